@@ -98,6 +98,28 @@ func runFile(c *fw.Ctx, f filedrv.File) {
 			}
 		}
 	}
+	// (h) the caller's own *T: a first read of the file that its callback abandons at record i, then a complete read
+	// into the same destination — the complete read delivers exactly the file's records
+	if !f.Big && total >= 2 {
+		for i := 0; i < total; i++ {
+			c.Eval(1)
+			desc := fmt.Sprintf("file %s read into a caller-owned destination that an earlier read, abandoned at record %d, has used", f.Name, i)
+			locus := f.Codec + "|reused-destination"
+			c.Begin(locus, desc)
+			res := filedrv.ReadReusing(f.Data, i%filedrv.NumReadModes, f.SC.Type, i)
+			if report(c, res, locus, desc, desc) {
+				continue
+			}
+			c.Nontrivial(desc)
+			if res.Err != nil {
+				c.Violation("spurious-error|"+locus, fmt.Sprintf("%v — %s", res.Err, desc), desc)
+			} else if len(res.Records) != total {
+				c.Violation("wrong-record-count|"+locus, fmt.Sprintf("%d records delivered, %d declared — %s", len(res.Records), total, desc), desc)
+			} else if d := f.ComparePrefix(res.Records, total); d != "" {
+				c.Violation("wrong-record|"+locus, d+" — "+desc, desc)
+			}
+		}
+	}
 	// (g) a second reader of the same file, run to completion from inside the callback of record i: two readers
 	// of one codec alive at once; the outer one must go on delivering its own records
 	if !f.Big {
@@ -298,7 +320,7 @@ func init() {
 			if tier == "thorough" {
 				n = 4
 			}
-			return fmt.Sprintf("file family {3 schemas} × {null,deflate,snappy} × every composition of <=%d records into blocks (+70-record blocks; + per codec two Big files: a 3000-record highly compressible block, and a 3/90/3-record file whose middle block exceeds 100 KiB on the wire so that the reader's buffer grows mid-block — for Big files payload bytes are flipped at every 23rd / 499th site, all other sites fully), written by the reference writer; per file: intact read under 6 readers (full, 1-byte, data+EOF, *bytes.Buffer, 16-byte *bufio.Reader, every other Read returning (0, nil)) × value/pointer target; files with EMPTY blocks (count 0) first, between and after full blocks; per codec a file of 2400 blocks of changing size (intact reads, callback failures and damage at spread sites only); a second complete ReadFile of the same file started from inside the callback of every record index (two live readers of one codec); callback failing at every record index with the caller's own error value and with io.EOF / io.ErrUnexpectedEOF / io.ErrShortWrite; EVERY BIT of every block sync marker, of the header sync (when a block exists), of every snappy CRC, of every compressed payload byte (deflate, snappy) and of the magic flipped one at a time; metadata variants (schema removed, codec absent/unknown spellings, reordered, extra keys, and the metadata map written in every composition of its entries into map blocks, plain and byte-size-prefixed); a case is one damaged or intact file; non-trivial = ReadFile completed and its result was compared with the oracle", n)
+			return fmt.Sprintf("file family {3 schemas} × {null,deflate,snappy} × every composition of <=%d records into blocks (+70-record blocks; + per codec two Big files: a 3000-record highly compressible block, and a 3/90/3-record file whose middle block exceeds 100 KiB on the wire so that the reader's buffer grows mid-block — for Big files payload bytes are flipped at every 23rd / 499th site, all other sites fully), written by the reference writer; per file: intact read under 6 readers (full, 1-byte, data+EOF, *bytes.Buffer, 16-byte *bufio.Reader, every other Read returning (0, nil)) × value/pointer target; files with EMPTY blocks (count 0) first, between and after full blocks; per codec a file of 2400 blocks of changing size (intact reads, callback failures and damage at spread sites only); a complete read into a caller-owned destination already used by a read abandoned at every record index; a second complete ReadFile of the same file started from inside the callback of every record index (two live readers of one codec); callback failing at every record index with the caller's own error value and with io.EOF / io.ErrUnexpectedEOF / io.ErrShortWrite; EVERY BIT of every block sync marker, of the header sync (when a block exists), of every snappy CRC, of every compressed payload byte (deflate, snappy) and of the magic flipped one at a time; metadata variants (schema removed, codec absent/unknown spellings, reordered, extra keys, and the metadata map written in every composition of its entries into map blocks, plain and byte-size-prefixed); a case is one damaged or intact file; non-trivial = ReadFile completed and its result was compared with the oracle", n)
 		},
 		Assumptions: []string{
 			"for a flipped payload bit the claim is made only when the reference decompressor (stdlib flate / golang/snappy + CRC) rejects the damaged payload; flips it accepts are counted, not judged",
